@@ -72,35 +72,36 @@ Fixpoint listN_eqb (a b:list N) : bool :=
 
 Definition timp (a b:mmterm) : mmterm := TApp c_imp [a; b].
 
+(** the canonical statements are compared as wholes; [x], [y], [z] are the statement's mandatory
+    variables in [$f] order *)
 Definition binary_ctor_ok (d:db) (c:N) (a:assertion) : bool :=
-  match a_stmt a with
-  | (_, [TApp c' [TVar x; TVar y]]) => N.eqb c c' && listN_eqb (mand_float_vars d a) [x; y]
+  match mand_float_vars d a with
+  | [x; y] => forallb2 Verify.term_eqb (snd (a_stmt a)) [TApp c [TVar x; TVar y]]
   | _ => false
   end.
 
 Definition prop1_ok (d:db) (a:assertion) : bool :=
-  match a_ess a, a_stmt a with
-  | [], (_, [TApp c1 [TVar x; TApp c2 [TVar y; TVar x']]]) =>
-      N.eqb c1 c_imp && N.eqb c2 c_imp && N.eqb x x' && listN_eqb (mand_float_vars d a) [x; y]
+  match a_ess a, mand_float_vars d a with
+  | [], [x; y] => stmt_eqb (a_stmt a) (tc_proved, [timp (TVar x) (timp (TVar y) (TVar x))])
   | _, _ => false
   end.
 
 Definition prop2_ok (d:db) (a:assertion) : bool :=
-  match a_ess a, a_stmt a with
-  | [], (_, [TApp c1 [TApp c2 [TVar x; TApp c3 [TVar y; TVar z]];
-                      TApp c4 [TApp c5 [TVar x1; TVar y1]; TApp c6 [TVar x2; TVar z1]]]]) =>
-      N.eqb c1 c_imp && N.eqb c2 c_imp && N.eqb c3 c_imp && N.eqb c4 c_imp && N.eqb c5 c_imp && N.eqb c6 c_imp
-      && N.eqb x x1 && N.eqb x x2 && N.eqb y y1 && N.eqb z z1
-      && listN_eqb (mand_float_vars d a) [x; y; z]
+  match a_ess a, mand_float_vars d a with
+  | [], [x; y; z] =>
+      stmt_eqb (a_stmt a)
+        (tc_proved, [timp (timp (TVar x) (timp (TVar y) (TVar z)))
+                          (timp (timp (TVar x) (TVar y)) (timp (TVar x) (TVar z)))])
   | _, _ => false
   end.
 
 Definition mp_ok (d:db) (a:assertion) : bool :=
-  match a_ess a, a_stmt a with
-  | [(_, (tc1, [TApp c1 [TVar x; TVar y]])); (_, (tc2, [TVar x']))], (_, [TVar y']) =>
-      N.eqb tc1 tc_proved && N.eqb tc2 tc_proved && N.eqb c1 c_imp && N.eqb x x' && N.eqb y y'
-      && listN_eqb (mand_float_vars d a) [x; y]
-  | _, _ => false
+  match mand_float_vars d a with
+  | [x; y] =>
+      stmt_eqb (a_stmt a) (tc_proved, [TVar y])
+      && forallb2 stmt_eqb (map (fun e => snd e) (a_ess a))
+                  [(tc_proved, [timp (TVar x) (TVar y)]); (tc_proved, [TVar x])]
+  | _ => false
   end.
 
 Definition single_term (s:stmt) : bool := match snd s with [_] => true | _ => false end.
